@@ -170,6 +170,28 @@ std::vector<BitItem> BitItems(const POp &op, bool bits_only, bool single_bit_api
 
 std::vector<uint32_t> SymbolValues(const POp &op) {
   Rng r(op.seed);
+  if (op.d >= 100) {
+    // Table-shape mode: K distinct symbols with equal counts plus one dominant
+    // symbol whose share of the total is close to a power of two, so that its
+    // normalised probability lands on (or next to) the boundaries of the
+    // variable-length table entries (2^6, 2^14) at every rANS precision.
+    const int j = op.d - 100;
+    const size_t K = static_cast<size_t>(128) << (j % 4);
+    const size_t reps = 8;
+    const int share_log2 = 1 + (j / 4) % 6;
+    const double share = 1.0 / static_cast<double>(1u << share_log2);
+    const double rest = static_cast<double>(K * reps);
+    const double jitter = 1.0 + (r.Unit() - 0.5) * 0.06;
+    size_t Z = static_cast<size_t>(rest * share / (1.0 - share) * jitter);
+    if (Z < 1) Z = 1;
+    std::vector<uint32_t> v;
+    v.reserve(K * reps + Z);
+    for (size_t k = 1; k <= K; ++k)
+      for (size_t q = 0; q < reps; ++q) v.push_back(static_cast<uint32_t>(k));
+    for (size_t z = 0; z < Z; ++z) v.push_back(0);
+    for (size_t i = v.size(); i > 1; --i) std::swap(v[i - 1], v[r.Below(i)]);
+    return v;
+  }
   const size_t n = static_cast<size_t>(op.a) * (op.b < 1 ? 1 : op.b);
   std::vector<uint32_t> v(n);
   const int maxbits = op.d < 1 ? 1 : (op.d > 22 ? 22 : op.d);
@@ -763,6 +785,11 @@ PPlan GeneratePrimPlan(uint64_t seed, bool big) {
       op.b = static_cast<int>(ro.Range(1, 4));
       op.c = static_cast<int>(ro.Below(3)) | (static_cast<int>(ro.Below(11)) << 2);
       op.d = static_cast<int>(ro.Range(1, 18));
+      if (ro.Fork("shape").Chance(1, 6)) {
+        op.a = 1;
+        op.b = 1;
+        op.d = 100 + static_cast<int>(ro.Fork("shape-j").Below(24));
+      }
     }
     if (op.k == P_BITREGION) {
       // Region items never use the single-bit API: mode 0 is meaningless.
